@@ -53,6 +53,11 @@ def gen_cases(tier, seed):
             for variant in range(3):
                 j += 1
                 yield {'family': obs, 'idx': 10 ** 6 + j, 'seed': seed, 'edge': 'raw_csv_load', 'variant': variant}
+        # resources whose paths differ only in their extension (figures.csv, figures.json): each is captured on its own
+        for obs in ('dump_to_path', 'dump_to_zip'):
+            for variant in range(2):
+                j += 1
+                yield {'family': obs, 'idx': 10 ** 6 + j, 'seed': seed, 'edge': 'same_stem_paths', 'variant': variant}
         # resources of a VALID data package that are not in the shape dataflows itself writes: inline data (no path),
         # a multipart path (list of files), a field without 'type'
         for obs in OBSERVERS[:-1]:
@@ -98,6 +103,11 @@ def edge_program(rng, edge):
     if edge == 'dedup_all_same':
         return [tab('a', rows(0, big, n=1))], [{'op': 'set_primary_key', 'res': 'a', 'sel': 'a', 'pk': ['n']},
                                                   {'op': 'deduplicate', 'res': 'a', 'sel': 'a'}], 1
+    if edge == 'same_stem_paths':
+        ts = [tab('a', rows(0, big)), tab('b', rows(100, 3)), tab('c', rows(200, 2))]
+        sp = [{'op': 'update_resource', 'res': n_, 'sel': n_, 'props': {'path': 'data/figures' + e_}}
+              for n_, e_ in zip('abc', ['.json', '.csv', '.tsv'])]
+        return ts, sp, 3
     if edge.startswith('foreign_package/'):
         n = rng.choice([2, 7, 30])
         t = {'name': 'fp', 'kind': 'package', 'pkg_shape': edge.split('/')[1], 'fields': [list(f) for f in F],
